@@ -9,6 +9,12 @@ package device
 //vc:  init nameChecked = false
 //vc:  init markerMissing = false
 //vc:  init haActive = false
+//vc:  init aborted = false
+//vc:  init changesConfirmed = false
+//vc:  init devFailure = false
+//vc:  ensures[C09] @exitStatusZeroOrOne result == 0 || result == 1
+//vc:  ensures[C09] @zeroOnlyWithoutAbort result == 0 ==> !aborted
+//vc:  ensures[C09] @approveZeroOnlyIfConfirmed result == 0 && !isCompare ==> changesConfirmed
 
 // Both front-end paths are verified once per device type (the interface
 // RealDevice is bound to each implementation in turn).
@@ -16,6 +22,11 @@ package device
 //vc:  specialize RealDevice
 //vc:  requires[C11] !isCompareRun
 //vc:  requires[C06] !nameChecked && !markerMissing && !haActive
+//vc:  requires[C09] !changesConfirmed
+//vc:  requires[C09] @freshDeviceObject dyntype(s.RealDevice) == typeid("*asa.State") ==> isnil(cast("*asa.State", s.RealDevice).State.errUnmanaged)
+//vc:  requires[C09] @freshDeviceObject dyntype(s.RealDevice) == typeid("*ios.State") ==> isnil(cast("*ios.State", s.RealDevice).State.errUnmanaged)
+//vc:  requires[C09] @freshDeviceObject dyntype(s.RealDevice) == typeid("*panos.State") ==> isnil(cast("*panos.State", s.RealDevice).errUnmanaged)
+//vc:  ensures[C09] @nilOnlyIfConfirmed result == nil ==> changesConfirmed
 
 //vc:func (*state).compare
 //vc:  specialize RealDevice
@@ -30,3 +41,6 @@ package device
 //vc:  requires[C06] @hostnameChecked dyntype(s.RealDevice) != typeid("*nsx.State") ==> nameChecked
 //vc:  requires[C06] @markerPresent !markerMissing
 //vc:  requires[C06] @haMemberActive dyntype(s.RealDevice) == typeid("*panos.State") ==> haActive
+//vc:  init devFailure = false
+//vc:  assign at "No changes applied" changesConfirmed = true
+//vc:  ensures[C09] @nilOnlyIfConfirmed result == nil ==> changesConfirmed
